@@ -15,22 +15,7 @@
 #include <Spectra/contrib/PartialSVDSolver.h>
 #include <Spectra/contrib/LOBPCGSolver.h>
 
-// The C library's process-wide generators, interposed: the executable's own definitions win over libc's for every call compiled into it (Eigen's
-// setRandom() / Random() end in std::rand()).  A library that draws from them shares hidden mutable state between all solvers of the process - with glibc's lock
-// around it, so ThreadSanitizer has nothing to report - and what a solver gets depends on what the other threads drew first.  The library never calls them on the
-// unchanged tree and neither does this harness, so one call is a finding; the stand-in generator hands out a shared sequence, as libc would.
-static std::atomic<long> g_libc_rng_calls{0};
-static std::atomic<unsigned> g_libc_rng_state{12345u};
-static int libc_rng_next() { g_libc_rng_calls++; unsigned x = g_libc_rng_state.load(); x = x * 1103515245u + 12345u; g_libc_rng_state.store(x); return (int) ((x >> 16) & 0x7fff); }
-extern "C" {
-int rand(void) noexcept { return libc_rng_next(); }
-long random(void) noexcept { return libc_rng_next(); }
-long lrand48(void) noexcept { return libc_rng_next(); }
-long mrand48(void) noexcept { return libc_rng_next(); }
-double drand48(void) noexcept { return libc_rng_next() / 32768.0; }
-void srand(unsigned) noexcept { g_libc_rng_calls++; }
-void srandom(unsigned) noexcept { g_libc_rng_calls++; }
-}
+#include "common/libcrng.hpp"
 
 using T = double;
 using namespace vz;
